@@ -34,10 +34,18 @@ func (e *loginEncryptError) Error() string {
 }
 
 // Login performs the login negotiation with the TDS server.
-func (tdsChan *Channel) Login(ctx context.Context, config *LoginConfig) error {
+func (tdsChan *Channel) Login(ctx context.Context, config *LoginConfig) (err error) {
 	if config == nil {
 		return errors.New("passed config is nil")
 	}
+
+	// Packages queued by a login that failed half-way must not be sent
+	// in front of the next message on the channel.
+	defer func() {
+		if err != nil {
+			tdsChan.Reset()
+		}
+	}()
 
 	tdsChan.txLock.Lock()
 	tdsChan.CurrentHeaderType = TDS_BUF_LOGIN
